@@ -181,58 +181,58 @@ new_child_node(struct trie *t, struct trie_node * parent, char ch)
 }
 
 
+/*
+ * Cut cur_node in two at segment position seg_cnt.
+ *
+ * cur_node itself stays the lower part: it keeps its value, key, references,
+ * notifiers, children and the rest of the segment, so that an iterator
+ * positioned on it, or using it as the root of a prefix iteration, stays
+ * valid.  A new node takes its place below the parent, with the first
+ * seg_cnt segment characters, and is returned.
+ */
 static struct trie_node *
 trie_node_split(struct trie *t, struct trie_node *cur_node, int seg_cnt)
 {
-	struct trie_node *split_node;
-	struct trie_node ** children = cur_node->children;
-	uint32_t num_children = cur_node->num_children;
-	struct qb_list_head *tmp;
-	int i;
-	int s;
+	struct trie_node *upper;
+	char *rest;
+	uint32_t rest_len = cur_node->num_segments - seg_cnt - 1;
+	int idx = TRIE_CHAR2INDEX(cur_node->segment[seg_cnt]);
+	uint32_t i;
 
-	cur_node->children = NULL;
-	cur_node->num_children = 0;
-	split_node = new_child_node(t, cur_node, cur_node->segment[seg_cnt]);
-	if (split_node == NULL) {
+	upper = trie_new_node(t, cur_node->parent);
+	if (upper == NULL) {
 		return NULL;
 	}
-	split_node->children = children;
-	split_node->num_children = num_children;
-	for (i = 0; i < split_node->num_children; i++) {
-		if (split_node->children[i]) {
-			split_node->children[i]->parent = split_node;
-		}
+	rest = malloc((rest_len + 1) * sizeof(char));
+	upper->num_children = QB_MAX(idx + 1, 30);
+	upper->children = calloc(upper->num_children,
+				 sizeof(struct trie_node *));
+	if (rest == NULL || upper->children == NULL) {
+		free(rest);
+		trie_destroy_node(upper);
+		t->num_nodes--;
+		t->mem_used -= sizeof(struct trie_node);
+		return NULL;
 	}
-	split_node->value = cur_node->value;
-	split_node->key = cur_node->key;
-	split_node->refcount = cur_node->refcount;
-	split_node->removed = cur_node->removed;
-	cur_node->value = NULL;
-	cur_node->key = NULL;
-	cur_node->refcount = 0;
-	cur_node->removed = QB_FALSE;
-	/* move notifier list to split */
-	tmp = split_node->notifier_head;
-	split_node->notifier_head = cur_node->notifier_head;
-	cur_node->notifier_head = tmp;
-	qb_list_init(cur_node->notifier_head);
+	t->mem_used += (sizeof(struct trie_node *) * upper->num_children);
+	for (i = 0; i < rest_len; i++) {
+		rest[i] = cur_node->segment[seg_cnt + 1 + i];
+	}
 
-	if (seg_cnt < cur_node->num_segments) {
-		split_node->num_segments = cur_node->num_segments - seg_cnt - 1;
-		split_node->segment = malloc(split_node->num_segments * sizeof(char));
-		if (split_node->segment == NULL) {
-			trie_destroy_node(split_node);
-			return NULL;
-		}
-		for (i = (seg_cnt + 1); i < cur_node->num_segments; i++) {
-			s = i - seg_cnt - 1;
-			split_node->segment[s] = cur_node->segment[i];
-			cur_node->segment[i] = '\0';
-		}
-		cur_node->num_segments = seg_cnt;
-	}
-	return cur_node;
+	/* the new node takes over the place and the head of the segment */
+	upper->idx = cur_node->idx;
+	upper->segment = cur_node->segment;
+	upper->num_segments = seg_cnt;
+	upper->parent->children[upper->idx] = upper;
+
+	/* cur_node moves below it */
+	upper->children[idx] = cur_node;
+	cur_node->idx = idx;
+	cur_node->parent = upper;
+	cur_node->segment = rest;
+	cur_node->num_segments = rest_len;
+
+	return upper;
 }
 
 static struct trie_node *
